@@ -1,7 +1,7 @@
 (* Props/C15.v -- Phase ordering and decimal I/O use the full two-part value.  Statements only. *)
-From Coq Require Import ZArith QArith Reals Floats Bool String List.
+From Coq Require Import ZArith QArith Reals Floats Bool String List Sorting.Permutation Sorting.Sorted.
 From Flocq Require Import Core BinarySingleNaN PrimFloat.
-From PB Require Import Proofs.TwoSumExact Model.Phase2 Model.DecStr Proofs.Floor Proofs.PhaseCmp Proofs.PhaseCmpAll Proofs.DecStrProofs Model.PhaseOrd Proofs.PhaseArgmin.
+From PB Require Import Proofs.TwoSumExact Model.Phase2 Model.DecStr Proofs.Floor Proofs.PhaseCmp Proofs.PhaseCmpAll Proofs.DecStrProofs Model.PhaseOrd Proofs.PhaseArgmin Proofs.PhaseSort.
 Open Scope R_scope.
 
 (* comparison branch, bit-exact model: diff = (int1 - int2) + (frac1 - frac2) has exactly the sign of the exact difference
@@ -88,8 +88,23 @@ Theorem C15_argmax_exact : forall p r k, Forall ok_ph (p :: r) -> (k < length (p
   argmax (p :: r) = k.
 Proof. exact argmax_exact. Qed.
 
-(* PARTIAL (carried by the exact correspondence + monitor on every run): argsort / sort / ptp (Model/PhaseOrd.v is compared index
-   for index and bit for bit), ties of argmin / argmax closer than 2^-50 (first-occurrence rule), the float-level parser (count, frac
+(* argsort / sort (stable insertion by the key (rounded cycle, remainder) -- the order np.lexsort produces): every index exactly
+   once, for EVERY list (no hypothesis); the output is sorted by that key whenever the keys are finite doubles; and the first key
+   component decides exactly: a smaller rounded cycle means a strictly smaller exact value (monotone rounding) *)
+Theorem C15_argsort_perm : forall l, Permutation (argsort l) (seq 0 (length l)).
+Proof. exact argsort_perm. Qed.
+Theorem C15_sort_perm : forall l, Permutation (psort l) l.
+Proof. exact psort_perm. Qed.
+Theorem C15_argsort_sorted_partial : forall l, Forall good_key (keyed l) ->
+  argsort l = map (fun k : key => snd k) (isort key key_le (keyed l)) /\
+  StronglySorted (fun a b => key_le a b = true) (isort key key_le (keyed l)).
+Proof. intros l G. split; [apply argsort_is|apply argsort_sorted; exact G]. Qed.
+Theorem C15_cycle_order_exact : forall a b, ok_ph a -> ok_ph b -> PrimFloat.ltb (cycle a) (cycle b) = true -> V a < V b.
+Proof. exact cycle_lt_exact. Qed.
+
+(* PARTIAL (carried by the exact correspondence + monitor on every run): that the remainder key orders phases sharing one rounded
+   cycle (finiteness and accuracy of (self - approx).cycle), ptp (Model/PhaseOrd.v is compared index for index and bit for bit),
+   ties of argmin / argmax closer than 2^-50 (first-occurrence rule), the float-level parser (count, frac
    as doubles) being within 2^-52 of the exact parser above, to_string = exact value rounded to the digits shown,
    from_string (to_string p) = p. *)
 
@@ -100,3 +115,6 @@ Print Assumptions C15_parse_count_integral.
 Print Assumptions C15_argmin.
 Print Assumptions C15_argmax.
 Print Assumptions C15_argmin_exact.
+Print Assumptions C15_argsort_perm.
+Print Assumptions C15_argsort_sorted_partial.
+Print Assumptions C15_cycle_order_exact.
